@@ -103,15 +103,19 @@ def main():
                     print(f"{r['commit']}: reverse patch does not apply: {msg[:200]}")
                     bad += 1
                     continue
-                res = run_checks(d, r["checks"])
+                per_seed = {sd: run_checks(d, r["checks"], seed=sd) for sd in seeds}
             finally:
                 shutil.rmtree(d, ignore_errors=True)
             subj = subprocess.run(["git", "-C", REPO, "log", "-1", "--format=%s", r["commit"]], capture_output=True, text=True).stdout.strip()
-            for c, (rc, dt, lines) in res.items():
-                verdict = "CAUGHT" if rc == 1 else "MISSED"
-                bad += rc != 1
-                print(f"{verdict} revert {r['commit']} by {c} (rc={rc}, {dt}s) :: {subj[:70]}")
-                results.append({"commit": r["commit"], "check": c, "rc": rc, "caught": rc == 1, "first": lines[:1]})
+            for c in r["checks"]:
+                rcs = {sd: per_seed[sd][c][0] for sd in seeds}
+                ok = all(rc == 1 for rc in rcs.values())
+                verdict = "CAUGHT" if ok else ("PARTLY" if any(rc == 1 for rc in rcs.values()) else "MISSED")
+                bad += not ok
+                print(f"{verdict} revert {r['commit']} by {c} (rc per seed {rcs}) :: {subj[:70]}", flush=True)
+                first = next((per_seed[sd][c][2] for sd in seeds if per_seed[sd][c][0] == 1), [])
+                results.append({"commit": r["commit"], "check": c, "rc": rcs[seeds[0]], "caught": ok, "seeds": seeds,
+                                "caught_on_seeds": [sd for sd in seeds if rcs[sd] == 1], "first": first[:1]})
     elif mode == "seeded":
         base = os.path.join(V, "seeded")
         for sid in sorted(os.listdir(base)):
